@@ -152,6 +152,16 @@ func observe(a Event, ad bchutil.Address, err error, p bool, msg string, env []i
 		for _, n := range nets {
 			fn = append(fn, ad.IsForNet(n))
 		}
+		// the typed accessors next to the Address interface: the hash as an array, the key as a point
+		switch t := ad.(type) {
+		case interface{ Hash160() *[20]byte }:
+			e["hashm"] = ints(t.Hash160()[:])
+		case interface{ Hash256() *[32]byte }:
+			e["hashm"] = ints(t.Hash256()[:])
+		case *bchutil.AddressPubKey:
+			e["pubm"] = ints(t.PubKey().SerializeCompressed())
+			e["pkhm"] = str(t.AddressPubKeyHash().EncodeAddress())
+		}
 	})
 	e["fornet"] = fn
 	if pp {
